@@ -27,13 +27,13 @@ type lin struct {
 	k int64
 }
 
-func linConst(k int64) lin       { return lin{c: map[string]int64{}, k: k} }
-func linLeaf(name string) lin    { return lin{c: map[string]int64{name: 1}} }
-func (a lin) add(b lin) lin      { return a.comb(b, 1) }
-func (a lin) sub(b lin) lin      { return a.comb(b, -1) }
-func (a lin) isConst() bool      { return len(a.c) == 0 }
-func (a lin) scale(m int64) lin  { return linConst(0).comb(a, m) }
-func (a lin) plus(k int64) lin   { r := a.comb(linConst(0), 1); r.k += k; return r }
+func linConst(k int64) lin      { return lin{c: map[string]int64{}, k: k} }
+func linLeaf(name string) lin   { return lin{c: map[string]int64{name: 1}} }
+func (a lin) add(b lin) lin     { return a.comb(b, 1) }
+func (a lin) sub(b lin) lin     { return a.comb(b, -1) }
+func (a lin) isConst() bool     { return len(a.c) == 0 }
+func (a lin) scale(m int64) lin { return linConst(0).comb(a, m) }
+func (a lin) plus(k int64) lin  { r := a.comb(linConst(0), 1); r.k += k; return r }
 func (a lin) comb(b lin, m int64) lin {
 	r := lin{c: map[string]int64{}, k: a.k + m*b.k}
 	for l, v := range a.c {
